@@ -1,7 +1,7 @@
 """C16 - index symbols are a shared base-16 positional code."""
 import z3
 
-from .. import driver, engine, symstr
+from .. import dech, driver, engine, symstr
 from ..ctx import Ctx
 from ..engine import fresh_int, zint, mk_int
 from ..docs import DOC_INDEX
@@ -89,6 +89,12 @@ def run(rep, tier, seed, budget):
     # ---- C: end to end through selfies.decoder
     CH = 24 if tier == "quick" else 300   # with fewer than 3 symbols present, Q = d*16 or d*256: targets clip to atom 0 for large d
 
+    def _decode(x):
+        r = dech.run_decoder(ctx, x)   # honours the M-TOK fidelity probe and the plain-string fallback
+        if r[0] != "ok":
+            raise r[1]
+        return r[1]
+
     def path_c(eng, col):
         ctx.reset()
         what = int(fresh_int("what", 0, 1))
@@ -101,7 +107,7 @@ def run(rep, tier, seed, budget):
         if what == 0:
             m_ = CH
             x = symstr.TokStr(["[C]"] * m_ + ["[Ring%d]" % L] + toks)
-            out = dec.decoder(x)
+            out = _decode(x)
             mol = read_smiles(str(out))
             rb = [k for k, b in mol.bonds.items() if b.kind == "ring"]
             last = m_ - 1
@@ -123,7 +129,7 @@ def run(rep, tier, seed, budget):
         else:
             m_ = CH
             x = symstr.TokStr(["[C]", "[Branch%d]" % L] + toks + ["[O]"] * m_ + ["[N]"])
-            out = dec.decoder(x)
+            out = _decode(x)
             mol = read_smiles(str(out))
             nb = sorted(j for (i, j) in mol.bonds if i == 0)
             # documented: the branch takes min(Q+1, m+1) symbols
